@@ -243,6 +243,9 @@ func execRun(in runIn, ev func(k string, f any)) []core.Violation {
 		}
 		if i > 0 && rng.Intn(5) == 0 {
 			cl = newClient()
+			ops.mu.Lock()
+			ops.secKeys = nil
+			ops.mu.Unlock()
 			emit("Restart", map[string]any{"c": 0})
 		}
 		minServed := ops.served["A"]
@@ -270,6 +273,9 @@ func execRun(in runIn, ev func(k string, f any)) []core.Violation {
 			vs = append(vs, core.Violation{Sig: sig, What: fmt.Sprintf("Lookup(%s,%s) panics: %v", path, vers, pan)})
 			// a client that panicked may hold its own locks for ever: go on with a new one, as after a crash
 			emit("Restart", map[string]any{"c": 0})
+			ops.mu.Lock()
+			ops.secKeys = nil
+			ops.mu.Unlock()
 			cl = newClient()
 		}
 		cls := "other"
